@@ -426,9 +426,17 @@ def r14(ctx, R, rule='R1.4'):
     oku = False
     why = src(a) if a is not None else None
     if a is not None:
-        names = C.names_in(a)
-        for nm in names:
-            from psa.rules.c05 import single_def
+        from psa.rules.c05 import single_def
+        # the names the argument is computed from, through single-definition
+        # locals (list(d.values()) bound to a name first is the same list)
+        names = set(C.names_in(a))
+        for _i in range(3):
+            for nm in sorted(names):
+                d = single_def(f, nm)
+                if d is not None and 'get_all_by_resource_provider' not in \
+                        src(d.value):
+                    names |= set(C.names_in(d.value))
+        for nm in sorted(names):
             d = single_def(f, nm)
             if d is not None and 'get_all_by_resource_provider' in src(
                     d.value):
